@@ -739,3 +739,13 @@ M("benign-rename-private-pre", ["C01", "C02", "C03", "C05", "C08", "C09", "C10",
    (PRE, "__iterate_match_objects(", "__scan(", 0)], expect="silent")
 M("benign-rename-private-classes", ["C03", "C06", "C07", "C20"],
   [(CLS, "__or(", "__union(", 0), (CLS, "__sub(", "__difference(", 0)], expect="silent")
+
+# ---- caches: a correct cache on a pure function with immutable results is not a violation; one that hands out a mutable object is
+M("benign-lru-cache-on-classifier", ["C20", "C09", "C02"], [(PRE, "import re as _re\n", "import re as _re\nimport functools as _functools\n", 1),
+   (PRE, "    @staticmethod\n    def __infer_type(", "    @staticmethod\n    @_functools.lru_cache(maxsize=None)\n    def __infer_type(")], expect="silent")
+M("c20-lru-cache-on-split-range", ["C20"], [(CLS, "import re as _re\n", "import re as _re\nimport functools as _functools\n", 1),
+   (CLS, "    @staticmethod\n    def __split_range(", "    @staticmethod\n    @_functools.lru_cache(maxsize=None)\n    def __split_range(")], rule="R-NOHIDDEN")
+M("benign-exact-memo-on-classifier", ["C20", "C09", "C02"], [(PRE, "    @staticmethod\n    def __infer_type(pattern: str) -> tuple[_Type, bool]:\n",
+   "    __memo: dict = {}\n\n    @staticmethod\n    def __infer_type(pattern: str) -> tuple[_Type, bool]:\n        if pattern not in __class__.__memo:\n            __class__.__memo[pattern] = __class__.__infer_type_uncached(pattern)\n        return __class__.__memo[pattern]\n\n    @staticmethod\n    def __infer_type_uncached(pattern: str) -> tuple[_Type, bool]:\n")], expect="silent")
+M("c20-lossy-memo-on-classifier", ["C20"], [(PRE, "    @staticmethod\n    def __infer_type(pattern: str) -> tuple[_Type, bool]:\n",
+   "    __memo: dict = {}\n\n    @staticmethod\n    def __infer_type(pattern: str) -> tuple[_Type, bool]:\n        key = pattern.lower()\n        if key not in __class__.__memo:\n            __class__.__memo[key] = __class__.__infer_type_uncached(pattern)\n        return __class__.__memo[key]\n\n    @staticmethod\n    def __infer_type_uncached(pattern: str) -> tuple[_Type, bool]:\n")], rule="R-NOSHARED")
